@@ -15,7 +15,9 @@ import (
 var _ = vp.Reg("Color1Table", H_Color1Table)
 var _ = vp.Reg("ColorForms", H_ColorForms)
 var _ = vp.Reg("SetCRegRoundTrip", H_SetCRegRoundTrip)
-var _ = vp.Reg("Blend", H_Blend)
+var _ = vp.Reg("BlendOperands", H_BlendOperands)
+var _ = vp.Reg("BlendFormula", H_BlendFormula)
+var _ = vp.Reg("BlendCompose", H_BlendCompose)
 var _ = vp.Reg("BlendPremul", H_BlendPremul)
 var _ = vp.Reg("Palette", H_Palette)
 
@@ -114,27 +116,62 @@ func H_SetCRegRoundTrip() {
 	vp.Assert(len(out) == 5+want, "shortest applicable colour form is used")
 }
 
-// H_Blend: resolving a blend computes the formula per channel on the resolved
-// operands, for all (t, c0, c1) and all palette / register contents.
-func H_Blend() {
-	var pal, creg [64]color.RGBA
-	for i := range pal {
-		pal[i] = color.RGBA{vp.U8("pr"), vp.U8("pg"), vp.U8("pb"), vp.U8("pa")}
-		creg[i] = color.RGBA{vp.U8("cr"), vp.U8("cg"), vp.U8("cb"), vp.U8("ca")}
+func symRegs(p string) (a [64]color.RGBA) {
+	for i := range a {
+		a[i] = color.RGBA{vp.U8(p + "r"), vp.U8(p + "g"), vp.U8(p + "b"), vp.U8(p + "a")}
 	}
-	t, c0, c1 := vp.U8("t"), vp.U8("c0"), vp.U8("c1")
-	got := ivg.BlendColor(t, c0, c1).Resolve(&pal, &creg)
-	r0 := ref.Resolve1(c0, &pal, &creg)
-	r1 := ref.Resolve1(c1, &pal, &creg)
+	return a
+}
+
+// The blend property is decided as a chain of three lemmas, each for all
+// inputs, whose composition is the property (DESIGN section 6, C09):
+//
+//  1. H_BlendOperands: a 1-byte operand resolves as the specification says
+//     (table value, palette entry, register) for all bytes, palettes, registers.
+//  2. H_BlendFormula: with register operands the result is the formula applied
+//     per channel to those registers, for all t and register contents.
+//  3. H_BlendCompose: resolving blend(t,c0,c1) equals resolving blend(t,CREG0,CREG1)
+//     after the implementation's own resolution of c0 and c1 has been placed in
+//     those registers (the blend resolves its operands and nothing else).
+
+func H_BlendOperands() {
+	pal, creg := symRegs("p"), symRegs("c")
+	x := vp.U8("x")
+	got := ivg.DecodeColor1(x).Resolve(&pal, &creg)
+	want := ref.Resolve1(x, &pal, &creg)
 	vp.Reach("resolved")
-	want := color.RGBA{ref.Blend(t, r0.R, r1.R), ref.Blend(t, r0.G, r1.G), ref.Blend(t, r0.B, r1.B), ref.Blend(t, r0.A, r1.A)}
-	vp.Assert(got == want, "blend is ((255-t)*c0 + t*c1 + 128)/255 per channel on the resolved operands")
-	vp.Assert(vp.Implies(t == 0, got == r0), "t = 0 gives c0")
-	vp.Assert(vp.Implies(t == 255, got == r1), "t = 255 gives c1")
-	// other indirect colours
+	vp.Assert(got == want, "1-byte operand resolves to table value / palette entry / register")
 	i := vp.U8("i")
 	vp.Assert(ivg.PaletteIndexColor(i).Resolve(&pal, &creg) == pal[i&63], "palette colour resolves to the palette entry")
 	vp.Assert(ivg.CRegColor(i).Resolve(&pal, &creg) == creg[i&63], "register colour resolves to the register")
+	c := color.RGBA{vp.U8("r"), vp.U8("g"), vp.U8("b"), vp.U8("a")}
+	vp.Assert(ivg.RGBAColor(c).Resolve(&pal, &creg) == c, "direct colour resolves to itself")
+}
+
+func H_BlendFormula() {
+	var pal, creg [64]color.RGBA
+	r0 := color.RGBA{vp.U8("r0"), vp.U8("g0"), vp.U8("b0"), vp.U8("a0")}
+	r1 := color.RGBA{vp.U8("r1"), vp.U8("g1"), vp.U8("b1"), vp.U8("a1")}
+	creg[0], creg[1] = r0, r1
+	t := vp.U8("t")
+	got := ivg.BlendColor(t, 0xc0, 0xc1).Resolve(&pal, &creg)
+	vp.Reach("resolved")
+	want := color.RGBA{ref.Blend(t, r0.R, r1.R), ref.Blend(t, r0.G, r1.G), ref.Blend(t, r0.B, r1.B), ref.Blend(t, r0.A, r1.A)}
+	vp.Assert(got == want, "blend is ((255-t)*c0 + t*c1 + 128)/255 per channel")
+	vp.Assert(vp.Implies(t == 0, got == r0), "t = 0 gives c0")
+	vp.Assert(vp.Implies(t == 255, got == r1), "t = 255 gives c1")
+}
+
+func H_BlendCompose() {
+	pal, creg := symRegs("p"), symRegs("c")
+	t, c0, c1 := vp.U8("t"), vp.U8("c0"), vp.U8("c1")
+	got := ivg.BlendColor(t, c0, c1).Resolve(&pal, &creg)
+	var creg2 [64]color.RGBA
+	creg2[0] = ivg.DecodeColor1(c0).Resolve(&pal, &creg)
+	creg2[1] = ivg.DecodeColor1(c1).Resolve(&pal, &creg)
+	want := ivg.BlendColor(t, 0xc0, 0xc1).Resolve(&pal, &creg2)
+	vp.Reach("resolved")
+	vp.Assert(got == want, "a blend resolves its two operands (as 1-byte colours) and blends the results")
 }
 
 // H_BlendPremul: blending premultiplied operands never gives a
